@@ -2,6 +2,7 @@ package engine
 
 import (
 	"fmt"
+	"os"
 	"go/token"
 	"go/types"
 	"sort"
@@ -51,6 +52,12 @@ type TaintSummary struct {
 	Sinks      []TaintSink
 	RetTainted bool
 	Undecided  []TaintSink
+	// Return facts of a helper (indices are parameter positions of the analysed function):
+	// RetSafe[r][pol] = parameters whose wire value is established safe (entry absent, or entry
+	// owned by an untainted peer) on every path returning a boolean result r that can equal pol.
+	RetSafe map[int]map[bool]map[int]bool
+	// RetEntry[r] = i: every non-nil value returned as result r is the table entry looked up with parameter i.
+	RetEntry map[int]int
 }
 
 type tval struct {
@@ -226,6 +233,14 @@ func (cfg *TaintCfg) analyze(fn *ssa.Function, sources []ssa.Value, chain []stri
 								continue
 							}
 						}
+						if call, ok := x.Tuple.(*ssa.Call); ok {
+							if cs := callSums[call]; cs != nil && cs.RetEntry != nil {
+								if _, isEntry := cs.RetEntry[x.Index]; !isEntry {
+									merge(x, stripEntry(get(x.Tuple)))
+									continue
+								}
+							}
+						}
 						if x.Index == 0 || !isCommaOk(x.Tuple) {
 							merge(x, get(x.Tuple))
 						}
@@ -283,6 +298,66 @@ func (cfg *TaintCfg) analyze(fn *ssa.Function, sources []ssa.Value, chain []stri
 		}
 	}
 
+	var curIn map[*ssa.BasicBlock]map[ssa.Value]bool // IN facts of the must-dataflow in progress (or finished)
+	genBusy := map[*ssa.Phi]bool{}
+	var genFn func(p, s *ssa.BasicBlock) map[ssa.Value]bool
+	gen := func(p, s *ssa.BasicBlock) map[ssa.Value]bool {
+		ifi, ok := p.Instrs[len(p.Instrs)-1].(*ssa.If)
+		if !ok || len(p.Succs) != 2 || p.Succs[0] == p.Succs[1] {
+			return nil
+		}
+		pol := p.Succs[0] == s
+		out := map[ssa.Value]bool{}
+		for _, c := range flatten(Cond{V: ifi.Cond, Pol: pol, If: ifi}) {
+			for o := range cfg.condSanitises(fn, c, tv, chain, depth) {
+				out[o] = true
+			}
+			// a flag assembled on the way in (phi of booleans): what is safe is what is safe on every
+			// incoming edge that can give the flag this value (facts of the predecessor + the edge's own)
+			if ph, ok := c.V.(*ssa.Phi); ok && curIn != nil && !genBusy[ph] {
+				if bt, ok := ph.Type().Underlying().(*types.Basic); ok && bt.Kind() == types.Bool {
+					genBusy[ph] = true
+					var acc map[ssa.Value]bool
+					for i, e := range ph.Edges {
+						if bv, isC := ConstBool(e); isC && bv != c.Pol {
+							continue // this edge cannot give the flag this value
+						}
+						pb := ph.Block().Preds[i]
+						m := map[ssa.Value]bool{}
+						for o := range curIn[pb] {
+							m[o] = true
+						}
+						for o := range genFn(pb, ph.Block()) {
+							m[o] = true
+						}
+						if _, isC := ConstBool(e); !isC {
+							for _, ec := range flatten(Cond{V: e, Pol: c.Pol}) {
+								for o := range cfg.condSanitises(fn, ec, tv, chain, depth) {
+									m[o] = true
+								}
+							}
+						}
+						if acc == nil {
+							acc = m
+						} else {
+							for o := range acc {
+								if !m[o] {
+									delete(acc, o)
+								}
+							}
+						}
+					}
+					delete(genBusy, ph)
+					for o := range acc {
+						out[o] = true
+					}
+				}
+			}
+		}
+		return out
+	}
+
+	genFn = gen
 	computeSafe := func() {
 		// must-dataflow over blocks: IN[b] = ∩_{p∈preds} (IN[p] ∪ gen(p→b))
 		all := map[ssa.Value]bool{}
@@ -306,20 +381,7 @@ func (cfg *TaintCfg) analyze(fn *ssa.Function, sources []ssa.Value, chain []stri
 				in[b] = top()
 			}
 		}
-		gen := func(p, s *ssa.BasicBlock) map[ssa.Value]bool {
-			ifi, ok := p.Instrs[len(p.Instrs)-1].(*ssa.If)
-			if !ok || len(p.Succs) != 2 || p.Succs[0] == p.Succs[1] {
-				return nil
-			}
-			pol := p.Succs[0] == s
-			out := map[ssa.Value]bool{}
-			for _, c := range flatten(Cond{ifi.Cond, pol, ifi}) {
-				for o := range cfg.condSanitises(fn, c, tv, chain, depth) {
-					out[o] = true
-				}
-			}
-			return out
-		}
+		curIn = in
 		for iter := 0; iter < 50; iter++ {
 			ch := false
 			for i, b := range fn.Blocks {
@@ -459,6 +521,148 @@ func (cfg *TaintCfg) analyze(fn *ssa.Function, sources []ssa.Value, chain []stri
 				}
 			}
 		}
+	}
+	// ---------------- return facts (helper summaries)
+	paramIdx := map[ssa.Value]int{}
+	for i, p := range fn.Params {
+		paramIdx[p] = i
+	}
+	nres := fn.Signature.Results().Len()
+	for r := 0; r < nres; r++ {
+		if bt, ok := fn.Signature.Results().At(r).Type().Underlying().(*types.Basic); ok && bt.Kind() == types.Bool {
+			// outcome sets: facts (safe origins) known when result r is false / true
+			var sets [2][]map[ssa.Value]bool
+			with := func(base map[ssa.Value]bool, v ssa.Value, pol bool) map[ssa.Value]bool {
+				m := map[ssa.Value]bool{}
+				for o := range base {
+					m[o] = true
+				}
+				for _, c := range flatten(Cond{V: v, Pol: pol}) {
+					for o := range cfg.condSanitises(fn, c, tv, chain, depth) {
+						m[o] = true
+					}
+				}
+				return m
+			}
+			var outcomes func(v ssa.Value, facts map[ssa.Value]bool, seen map[ssa.Value]bool)
+			outcomes = func(v ssa.Value, facts map[ssa.Value]bool, seen map[ssa.Value]bool) {
+				if bv, ok := ConstBool(v); ok {
+					if bv {
+						sets[1] = append(sets[1], facts)
+					} else {
+						sets[0] = append(sets[0], facts)
+					}
+					return
+				}
+				if ph, ok := v.(*ssa.Phi); ok {
+					if seen[ph] {
+						return
+					}
+					seen[ph] = true
+					for i, e := range ph.Edges {
+						p := ph.Block().Preds[i]
+						f := map[ssa.Value]bool{}
+						for o := range safeIn[p] {
+							f[o] = true
+						}
+						for o := range gen(p, ph.Block()) {
+							f[o] = true
+						}
+						outcomes(e, f, seen)
+					}
+					return
+				}
+				sets[1] = append(sets[1], with(facts, v, true))
+				sets[0] = append(sets[0], with(facts, v, false))
+			}
+			for _, ret := range Returns(fn) {
+				if r < len(ret.Results) {
+					outcomes(ReturnValue(ret, r), safeIn[ret.Block()], map[ssa.Value]bool{})
+				}
+			}
+			for pi, pol := range []bool{false, true} {
+				if len(sets[pi]) == 0 {
+					continue
+				}
+				for _, p := range fn.Params {
+					if !tv[p].has() {
+						continue
+					}
+					all := true
+					for _, f := range sets[pi] {
+						if !f[p] {
+							all = false
+							break
+						}
+					}
+					if all {
+						if sum.RetSafe == nil {
+							sum.RetSafe = map[int]map[bool]map[int]bool{}
+						}
+						if sum.RetSafe[r] == nil {
+							sum.RetSafe[r] = map[bool]map[int]bool{}
+						}
+						if sum.RetSafe[r][pol] == nil {
+							sum.RetSafe[r][pol] = map[int]bool{}
+						}
+						sum.RetSafe[r][pol][paramIdx[p]] = true
+					}
+				}
+			}
+			continue
+		}
+		// entry-returning result
+		pi, okAll, any := -1, true, false
+		var isEntryOf func(v ssa.Value, seen map[ssa.Value]bool) bool
+		isEntryOf = func(v ssa.Value, seen map[ssa.Value]bool) bool {
+			if c, ok := v.(*ssa.Const); ok && c.Value == nil {
+				return true // nil / zero value
+			}
+			if ph, ok := v.(*ssa.Phi); ok {
+				if seen[ph] {
+					return true
+				}
+				seen[ph] = true
+				for _, e := range ph.Edges {
+					if !isEntryOf(e, seen) {
+						return false
+					}
+				}
+				return true
+			}
+			t := tv[v]
+			if t == nil || !t.entry || len(t.origins) != 1 {
+				return false
+			}
+			if _, isLookup := entryRoot(Strip(v)); !isLookup {
+				return false
+			}
+			for o := range t.origins {
+				i, isParam := paramIdx[o]
+				if !isParam || (pi >= 0 && pi != i) {
+					return false
+				}
+				pi = i
+			}
+			any = true
+			return true
+		}
+		for _, ret := range Returns(fn) {
+			if r >= len(ret.Results) || !isEntryOf(ReturnValue(ret, r), map[ssa.Value]bool{}) {
+				okAll = false
+				break
+			}
+		}
+		if okAll && any && pi >= 0 {
+			if sum.RetEntry == nil {
+				sum.RetEntry = map[int]int{}
+			}
+			sum.RetEntry[r] = pi
+		}
+	}
+
+	if os.Getenv("GS_TAINT_DEBUG") != "" {
+		fmt.Fprintf(os.Stderr, "TAINT %s srcs=%v RetSafe=%v RetEntry=%v RetTainted=%v\n", FuncName(fn), ks, sum.RetSafe, sum.RetEntry, sum.RetTainted)
 	}
 	// dedupe sinks
 	sum.Sinks = dedupeSinks(sum.Sinks)
@@ -644,6 +848,15 @@ func (cfg *TaintCfg) propCall(fn *ssa.Function, b *ssa.BasicBlock, ci ssa.CallIn
 		if descend {
 			s := cfg.analyze(callee, srcs, chain, depth+1)
 			callSums[ci] = s
+			if res != nil && len(s.RetEntry) > 0 {
+				// accessor: the result is the table entry looked up with one of the arguments
+				for _, pi := range s.RetEntry {
+					if pi < len(tainted) && tainted[pi] != nil {
+						merge(res, &tval{origins: tainted[pi].origins, entry: true})
+					}
+				}
+				return
+			}
 			if res != nil && s.RetTainted {
 				for _, t := range tainted {
 					merge(res, stripEntry(t))
@@ -823,8 +1036,31 @@ func (cfg *TaintCfg) condSanitises(fn *ssa.Function, c Cond, tv map[ssa.Value]*t
 			if f, _ := LoadedField(lk.X); f == cfg.Table {
 				addAll(tv[lk.Index])
 			}
+			return out
 		}
-		return out
+	}
+	// boolean result of a module helper: use the helper's return facts
+	if call, ridx := callResult(c.V); call != nil {
+		callee := call.Call.StaticCallee()
+		if callee != nil && callee.Blocks != nil && len(callee.FreeVars) == 0 && InModule(FuncPkgPath(callee)) && depth < cfg.MaxDepth {
+			var srcs []ssa.Value
+			for i, a := range call.Call.Args {
+				if tvHas(tv, a) && i < len(callee.Params) {
+					srcs = append(srcs, callee.Params[i])
+				}
+			}
+			if len(srcs) > 0 {
+				s := cfg.analyze(callee, srcs, chain, depth+1)
+				if s.RetSafe != nil && s.RetSafe[ridx] != nil {
+					for pi := range s.RetSafe[ridx][c.Pol] {
+						if pi < len(call.Call.Args) {
+							addAll(tv[call.Call.Args[pi]])
+							addAll(tv[Strip(call.Call.Args[pi])])
+						}
+					}
+				}
+			}
+		}
 	}
 	// boolean helper
 	if call, ok := c.V.(*ssa.Call); ok && c.Pol {
